@@ -292,6 +292,40 @@ Definition pdp_val (rpl cd : bool) (p : pdp) : val :=
 Definition caps_val (c : caps3) : val := let '(a, b, d) := c in VL [VZ a; VZ b; VZ d].
 Definition kv_val (p : str * Z) : val := VL [VS (fst p); VZ (snd p)].
 
+(* compression dictionary of the cases files: an encoding device of harness/c11.py, which lists the same strings in the
+   same order (static obligation dict_in_sync); observations spell long strings as (VD i) *)
+Definition dict : list str :=
+  [S"urn:fabric:xacml:attributes:resource-type";
+   S"urn:fabric:xacml:attributes:resource-cpu";
+   S"urn:fabric:xacml:attributes:resource-ram";
+   S"urn:fabric:xacml:attributes:resource-disk";
+   S"urn:fabric:xacml:attribute:resource-bw";
+   S"urn:fabric:xacml:attribute:resource-site";
+   S"urn:fabric:xacml:attribute:resource-component";
+   S"urn:fabric:xacml:attribute:resource-fabnetv4-ext-site";
+   S"urn:fabric:xacml:attribute:resource-fabnetv6-ext-site";
+   S"urn:fabric:xacml:attribute:resource-mirrorsite";
+   S"urn:fabric:xacml:attribute:resource-facility-port";
+   S"urn:fabric:xacml:attributes:resource-project";
+   S"urn:fabric:xacml:attributes:resource-subject";
+   S"urn:oasis:names:tc:xacml:1.0:action:action-id";
+   S"urn:fabric:xacml:attributes:resource-lifetime";
+   S"urn:oasis:names:tc:xacml:1.0:subject:subject-id";
+   S"urn:fabric:xacml:attributes:subject-project";
+   S"urn:fabric:xacml:attributes:project-tag";
+   S"http://www.w3.org/2001/XMLSchema#string";
+   S"http://www.w3.org/2001/XMLSchema#integer";
+   S"http://www.w3.org/2001/XMLSchema#boolean";
+   S"http://www.w3.org/2001/XMLSchema#dayTimeDuration";
+   S"urn:oasis:names:tc:xacml:3.0:attribute-category:resource";
+   S"urn:oasis:names:tc:xacml:3.0:attribute-category:action";
+   S"urn:oasis:names:tc:xacml:1.0:subject-category:access-subject";
+   S"sliver";
+   S"switch-p4";
+   S"UNKNOWN-SITE";
+   S"user@example.org"].
+Definition VD (i : N) : val := VS (nth (N.to_nat i) dict []).
+
 (* multiset equality of val lists (sets / canonicalised lists are compared up to order) *)
 Fixpoint remove1 (x : val) (l : list val) : option (list val) :=
   match l with
